@@ -163,7 +163,7 @@ Lemma read_word_det n w : forall r1 r2, agree n r1 r2 ->
 Proof.
   induction w as [|e w IH]; intros r1 r2 A B; cbn [read_word] in *.
   - d_auto fail.
-  - d_auto ltac:(match goal with |- context [read_word w ?x] =>
+  - d_auto ltac:(idtac; match goal with |- context [read_word w ?x] =>
                    is_var x; d_pair (read_word w x) (read_word_advances w x) (IH x) end).
 Qed.
 
@@ -176,7 +176,7 @@ Lemma eat_ws_det n fuel : forall r1 r2, agree n r1 r2 ->
   (consumed (eat_ws fuel r1) <= n)%nat -> agree n (eat_ws fuel r1) (eat_ws fuel r2).
 Proof.
   induction fuel as [|f IH]; intros r1 r2 A B; cbn [eat_ws] in *; [exact A|].
-  d_auto ltac:(match goal with |- context [eat_ws f ?x] =>
+  d_auto ltac:(idtac; match goal with |- context [eat_ws f ?x] =>
                  is_var x; d_set (eat_ws f x) (eat_ws_advances f x) (IH x) end).
 Qed.
 
@@ -185,7 +185,7 @@ Lemma read_digits_f_det n fuel : forall acc r1 r2, agree n r1 r2 ->
   det2 n (read_digits_f fuel acc r1) (read_digits_f fuel acc r2).
 Proof.
   induction fuel as [|f IH]; intros acc r1 r2 A B; cbn [read_digits_f] in *; [split; [reflexivity|exact A]|].
-  d_auto ltac:(match goal with |- context [read_digits_f f ?a ?x] =>
+  d_auto ltac:(idtac; match goal with |- context [read_digits_f f ?a ?x] =>
                  is_var x; d_pair (read_digits_f f a x) (read_digits_f_advances f a x) (IH a x) end).
 Qed.
 
@@ -194,7 +194,7 @@ Lemma read_hex4_det n k : forall acc r1 r2, agree n r1 r2 ->
   det2 n (read_hex4 k acc r1) (read_hex4 k acc r2).
 Proof.
   induction k as [|k IH]; intros acc r1 r2 A B; cbn [read_hex4] in *; [split; [reflexivity|exact A]|].
-  d_auto ltac:(match goal with |- context [read_hex4 k ?a ?x] =>
+  d_auto ltac:(idtac; match goal with |- context [read_hex4 k ?a ?x] =>
                  is_var x; d_pair (read_hex4 k a x) (read_hex4_advances k a x) (IH a x) end).
 Qed.
 
@@ -203,9 +203,844 @@ Lemma read_string_f_det n fuel : forall acc r1 r2, agree n r1 r2 ->
   det2 n (read_string_f fuel acc r1) (read_string_f fuel acc r2).
 Proof.
   induction fuel as [|f IH]; intros acc r1 r2 A B; cbn [read_string_f] in *; [split; [reflexivity|exact A]|].
-  d_auto ltac:(first
+  d_auto ltac:(idtac; first
     [ match goal with |- context [read_hex4 ?k ?a ?x] =>
         is_var x; d_pair (read_hex4 k a x) (read_hex4_advances k a x) (fun r2 => read_hex4_det n k a x r2) end
     | match goal with |- context [read_string_f f ?a ?x] =>
         is_var x; d_pair (read_string_f f a x) (read_string_f_advances f a x) (IH a x) end ]).
 Qed.
+
+(* ----- enough fuel is as good as more fuel ----- *)
+Lemma m_le r : (m r <= S (length (rest r)))%nat.
+Proof. unfold m. destruct (eof r); lia. Qed.
+
+Lemma eat_ws_S f r : eat_ws (S f) r =
+  match peek r with
+  | (Some b, r') => if is_ws b then eat_ws f (snd (next r')) else r'
+  | (None, r') => r'
+  end.
+Proof. reflexivity. Qed.
+
+Lemma eat_ws_fuel_S : forall f r, inv r -> (m r < f)%nat -> eat_ws (S f) r = eat_ws f r.
+Proof.
+  induction f as [|f IH]; intros r Hi Hm; [lia|]. rewrite (eat_ws_S (S f)), (eat_ws_S f).
+  pose proof (peek_mono r) as M1. pose proof (peek_live r) as M2.
+  destruct (peek r) as [[b|] r']; cbn [fst snd] in *; [|reflexivity].
+  destruct (is_ws b); [|reflexivity].
+  pose proof (next_mono r') as M3. pose proof (next_strict r') as M4. mn_sat.
+  apply IH; [assumption|lia].
+Qed.
+
+Lemma eat_ws_fuel f f' r : inv r -> (m r < f)%nat -> (f <= f')%nat -> eat_ws f' r = eat_ws f r.
+Proof.
+  intros Hi Hm Hle. induction Hle as [|f' Hle IH]; [reflexivity|].
+  rewrite eat_ws_fuel_S; [exact IH|assumption|lia].
+Qed.
+
+Lemma read_digits_f_fuel_S : forall f acc r, inv r -> (m r < f)%nat ->
+  read_digits_f (S f) acc r = read_digits_f f acc r.
+Proof.
+  induction f as [|f IH]; intros acc r Hi Hm; [lia|].
+  rewrite (read_digits_f_S (S f)), (read_digits_f_S f).
+  pose proof (peek_mono r) as M1. pose proof (peek_live r) as M2.
+  destruct (peek r) as [[b|] r']; cbn [fst snd] in *; [|reflexivity].
+  destruct (is_digit b); [|reflexivity].
+  pose proof (next_mono r') as M3. pose proof (next_strict r') as M4. mn_sat.
+  apply IH; [assumption|lia].
+Qed.
+
+Lemma read_digits_f_fuel f f' acc r : inv r -> (m r < f)%nat -> (f <= f')%nat ->
+  read_digits_f f' acc r = read_digits_f f acc r.
+Proof.
+  intros Hi Hm Hle. induction Hle as [|f' Hle IH]; [reflexivity|].
+  rewrite read_digits_f_fuel_S; [exact IH|assumption|lia].
+Qed.
+
+Lemma read_string_f_S f acc r : read_string_f (S f) acc r =
+    match next r with
+    | (None, r') => (PErr, r')
+    | (Some c, r') =>
+      if c =? 34 then
+        let r'' := snd (next r') in
+        match utf8_decode acc with Some s => (POk (JStr s), r'') | None => (PErr, r'') end
+      else if c =? 92 then
+        match next r' with
+        | (None, r'') => (PErr, r'')
+        | (Some e, r'') =>
+            if e =? 117 then
+              match read_hex4 4 0 r'' with
+              | (Some u, r3) =>
+                  if is_scalar u then read_string_f f (acc ++ utf8_encode_char u) r3 else (PErr, r3)
+              | (None, r3) => (PErr, r3)
+              end
+            else match assoc_N e escape_table with
+                 | Some b => read_string_f f (acc ++ [b]) r''
+                 | None => (PErr, r'')
+                 end
+        end
+      else read_string_f f (acc ++ [c]) r'
+    end.
+Proof. reflexivity. Qed.
+
+Lemma read_string_f_fuel_S : forall f acc r, (length (rest r) < f)%nat ->
+  read_string_f (S f) acc r = read_string_f f acc r.
+Proof.
+  induction f as [|f IH]; intros acc r Hf; [lia|].
+  rewrite (read_string_f_S (S f)), (read_string_f_S f).
+  pose proof (next_rest r) as [H1 H2]. destruct (next r) as [[c|] r1]; cbn [fst snd] in *; [|reflexivity].
+  destruct (c =? 34); [reflexivity|].
+  destruct (c =? 92); [|apply IH; lia].
+  pose proof (next_rest r1) as [H3 H4]. destruct (next r1) as [[e|] r2]; cbn [fst snd] in *; [|reflexivity].
+  destruct (e =? 117).
+  - pose proof (read_hex4_rest 4 0 r2) as H5. destruct (read_hex4 4 0 r2) as [[u|] r3]; cbn [snd] in *; [|reflexivity].
+    destruct (is_scalar u); [apply IH; lia|reflexivity].
+  - destruct (assoc_N e escape_table); [apply IH; lia|reflexivity].
+Qed.
+
+Lemma read_string_f_fuel f f' acc r : (length (rest r) < f)%nat -> (f <= f')%nat ->
+  read_string_f f' acc r = read_string_f f acc r.
+Proof.
+  intros Hm Hle. induction Hle as [|f' Hle IH]; [reflexivity|].
+  rewrite read_string_f_fuel_S; [exact IH|lia].
+Qed.
+
+(* ----- the functions that compute their own fuel ----- *)
+Lemma eat_whitespace_det n r1 r2 : agree n r1 r2 ->
+  (consumed (eat_whitespace r1) <= n)%nat -> agree n (eat_whitespace r1) (eat_whitespace r2).
+Proof.
+  intros A. pose proof (agree_m _ _ _ A) as Hi1. pose proof (agree_inv2 _ _ _ A) as Hi2.
+  unfold eat_whitespace.
+  set (F1 := S (S (length (rest r1)))). set (F2 := S (S (length (rest r2)))).
+  pose proof (m_le r1). pose proof (m_le r2).
+  rewrite <- (eat_ws_fuel F1 (Nat.max F1 F2) r1), <- (eat_ws_fuel F2 (Nat.max F1 F2) r2) by (auto; lia).
+  apply eat_ws_det. exact A.
+Qed.
+
+Lemma read_digits_det n acc r1 r2 : agree n r1 r2 ->
+  (consumed (snd (read_digits acc r1)) <= n)%nat -> det2 n (read_digits acc r1) (read_digits acc r2).
+Proof.
+  intros A. pose proof (agree_m _ _ _ A) as Hi1. pose proof (agree_inv2 _ _ _ A) as Hi2.
+  unfold read_digits.
+  set (F1 := S (S (length (rest r1)))). set (F2 := S (S (length (rest r2)))).
+  pose proof (m_le r1). pose proof (m_le r2).
+  rewrite <- (read_digits_f_fuel F1 (Nat.max F1 F2) acc r1), <- (read_digits_f_fuel F2 (Nat.max F1 F2) acc r2)
+    by (auto; lia).
+  apply read_digits_f_det. exact A.
+Qed.
+
+Lemma read_string_det n r1 r2 : agree n r1 r2 ->
+  (consumed (snd (read_string r1)) <= n)%nat -> det2 n (read_string r1) (read_string r2).
+Proof.
+  intros A. unfold read_string.
+  set (F1 := S (length (rest r1))). set (F2 := S (length (rest r2))).
+  rewrite <- (read_string_f_fuel F1 (Nat.max F1 F2) [] r1), <- (read_string_f_fuel F2 (Nat.max F1 F2) [] r2)
+    by (unfold F1, F2; lia).
+  apply read_string_f_det. exact A.
+Qed.
+
+Ltac d_opw :=
+  with_goal ltac:(fun n t1 t2 =>
+    match t1 with
+    | context [eat_whitespace ?x] =>
+        is_var x; d_set (eat_whitespace x) (eat_whitespace_advances x) (fun r2 => eat_whitespace_det n x r2)
+    | context [read_digits ?a ?x] =>
+        is_var x; d_pair (read_digits a x) (read_digits_advances a x) (fun r2 => read_digits_det n a x r2)
+    | context [read_word ?w ?x] =>
+        is_var x; d_pair (read_word w x) (read_word_advances w x) (fun r2 => read_word_det n w x r2)
+    | context [read_string ?x] =>
+        is_var x; d_pair (read_string x) (read_string_advances x) (fun r2 => read_string_det n x r2)
+    end).
+
+Lemma read_number_det n r1 r2 : agree n r1 r2 ->
+  (consumed (snd (read_number r1)) <= n)%nat -> det2 n (read_number r1) (read_number r2).
+Proof.
+  intros A B. unfold read_number in *. d_auto ltac:(idtac; d_opw).
+Qed.
+
+Definition DV (n f : nat) : Prop := forall r1 r2, agree n r1 r2 ->
+  (consumed (snd (parse_value f r1)) <= n)%nat -> det2 n (parse_value f r1) (parse_value f r2).
+Definition DI (n f : nat) : Prop := forall acc r1 r2, agree n r1 r2 ->
+  (consumed (snd (parse_items f acc r1)) <= n)%nat -> det2 n (parse_items f acc r1) (parse_items f acc r2).
+Definition DM (n f : nat) : Prop := forall acc r1 r2, agree n r1 r2 ->
+  (consumed (snd (parse_members f acc r1)) <= n)%nat ->
+  det2 n (parse_members f acc r1) (parse_members f acc r2).
+
+Ltac d_opp :=
+  with_goal ltac:(fun n t1 t2 =>
+    match t1 with
+    | context [read_number ?x] =>
+        is_var x; d_pair (read_number x) (read_number_advances x) (fun r2 => read_number_det n x r2)
+    | context [parse_value ?f ?x] =>
+        is_var x;
+        match goal with IH : DV n f |- _ =>
+          d_pair (parse_value f x) (parse_value_advances f x) (IH x) end
+    | context [parse_items ?f ?a ?x] =>
+        is_var x;
+        match goal with IH : DI n f |- _ =>
+          d_pair (parse_items f a x) (parse_items_advances f a x) (IH a x) end
+    | context [parse_members ?f ?a ?x] =>
+        is_var x;
+        match goal with IH : DM n f |- _ =>
+          d_pair (parse_members f a x) (parse_members_advances f a x) (IH a x) end
+    end).
+
+Lemma parse_det n : forall f, DV n f /\ DI n f /\ DM n f.
+Proof.
+  induction f as [|f (IHv & IHi & IHm)].
+  - split; [|split]; intro; intros; (split; [reflexivity|assumption]).
+  - split; [|split].
+    + intros r1 r2 A B. rewrite !parse_value_S in *. fr_norm.
+      d_auto ltac:(idtac; first [d_opw | d_opp]).
+    + intros acc r1 r2 A B. rewrite !parse_items_S in *. fr_norm.
+      d_auto ltac:(idtac; first [d_opw | d_opp]).
+    + intros acc r1 r2 A B. rewrite !parse_members_S in *. fr_norm.
+      d_auto ltac:(idtac; first [d_opw | d_opp]).
+Qed.
+
+(* ----- more fuel does not change a parse that did not run out of fuel ----- *)
+Definition PMV (f : nat) : Prop :=
+  forall r, fst (parse_value f r) <> PFuel -> parse_value (S f) r = parse_value f r.
+Definition PMI (f : nat) : Prop :=
+  forall acc r, fst (parse_items f acc r) <> PFuel -> parse_items (S f) acc r = parse_items f acc r.
+Definition PMM (f : nat) : Prop :=
+  forall acc r, fst (parse_members f acc r) <> PFuel -> parse_members (S f) acc r = parse_members f acc r.
+
+Ltac pm_step :=
+  first
+  [ match goal with
+    | IHv : PMV ?f, H : _ <> PFuel |- context [parse_value (S ?f) ?x] =>
+        let E := fresh "E" in
+        destruct (parse_value f x) as [[?| | |] ?] eqn:E; fr_norm;
+        [ rewrite (IHv x) by (rewrite E; discriminate); rewrite E; fr_norm
+        | rewrite (IHv x) by (rewrite E; discriminate); rewrite E; fr_norm
+        | rewrite (IHv x) by (rewrite E; discriminate); rewrite E; fr_norm
+        | exfalso; apply H; reflexivity ]
+    end
+  | lazymatch goal with |- _ = ?b => let x := hs b in destruct x; fr_norm end ].
+
+Ltac pm_done :=
+  first [ reflexivity
+        | match goal with IH : PMI ?f, H : _ <> PFuel |- parse_items (S ?f) _ _ = _ => apply IH; exact H end
+        | match goal with IH : PMM ?f, H : _ <> PFuel |- parse_members (S ?f) _ _ = _ => apply IH; exact H end ].
+
+Lemma parse_fuel_mono : forall f, PMV f /\ PMI f /\ PMM f.
+Proof.
+  induction f as [|f (IHv & IHi & IHm)].
+  - split; [|split]; intro; intros; exfalso; apply H; reflexivity.
+  - split; [|split].
+    + intros r H. rewrite (parse_value_S (S f)). rewrite (parse_value_S f) in *. fr_norm.
+      repeat pm_step; pm_done.
+    + intros acc r H. rewrite (parse_items_S (S f)). rewrite (parse_items_S f) in *. fr_norm.
+      repeat pm_step; pm_done.
+    + intros acc r H. rewrite (parse_members_S (S f)). rewrite (parse_members_S f) in *. fr_norm.
+      repeat pm_step; pm_done.
+Qed.
+
+Lemma parse_value_fuel f f' r : inv r -> (2 * m r + 1 <= f)%nat -> (f <= f')%nat ->
+  parse_value f' r = parse_value f r.
+Proof.
+  intros Hi Hm Hle. induction Hle as [|f' Hle IH]; [reflexivity|].
+  rewrite (proj1 (parse_fuel_mono f')); [exact IH|].
+  apply (proj1 (parse_nofuel f')); [assumption|lia].
+Qed.
+
+Theorem next_json_value_det n r1 r2 : agree n r1 r2 ->
+  (consumed (snd (next_json_value r1)) <= n)%nat ->
+  det2 n (next_json_value r1) (next_json_value r2).
+Proof.
+  intros A. pose proof (agree_m _ _ _ A) as Hi1. pose proof (agree_inv2 _ _ _ A) as Hi2.
+  unfold next_json_value.
+  pose proof (parse_fuel_m r1). pose proof (parse_fuel_m r2).
+  rewrite <- (parse_value_fuel (parse_fuel r1) (Nat.max (parse_fuel r1) (parse_fuel r2)) r1),
+          <- (parse_value_fuel (parse_fuel r2) (Nat.max (parse_fuel r1) (parse_fuel r2)) r2) by (auto; lia).
+  apply (proj1 (parse_det n _)). exact A.
+Qed.
+
+(* ================= (L2) the read loop is local ================= *)
+Lemma agree_where n r1 r2 : agree n r1 r2 -> where_am_i r1 = where_am_i r2.
+Proof. intros (_ & _ & _ & Hl & Hc & _). unfold where_am_i. congruence. Qed.
+Lemma agree_io n r1 r2 : agree n r1 r2 -> io r1 = io r2.
+Proof. intros H. apply H. Qed.
+Lemma agree_pulled n r1 r2 : agree n r1 r2 -> pulled r1 = pulled r2.
+Proof. intros H. apply H. Qed.
+
+Section Local.
+Variables (cf : cfg) (p : printer) (sts : list stage) (nt : nat).
+
+Ltac ri_op f :=
+  match goal with
+  | |- context [read_input cf p sts nt f ?x ?fn ?s ?i ?j] =>
+      is_var x;
+      match goal with IH : forall r fname ss idx infile, advances r (snd (read_input cf p sts nt f r fname ss idx infile)) |- _ =>
+        fr_pair (read_input cf p sts nt f x fn s i j) (IH x fn s i j) end
+  end.
+
+Lemma read_input_advances : forall f r fname ss idx infile,
+  advances r (snd (read_input cf p sts nt f r fname ss idx infile)).
+Proof.
+  induction f as [|f IH]; intros r fname ss idx infile; cbn [read_input]; [apply advances_refl|]. fr_norm.
+  fr_pair (next_json_value r) (next_json_value_advances r).
+  repeat first [ri_op f | ad_case]; ad_done.
+Qed.
+
+Lemma read_input_advances_first f r fname ss idx infile :
+  advances (snd (next_json_value r)) (snd (read_input cf p sts nt (S f) r fname ss idx infile)).
+Proof.
+  cbn [read_input]. fr_norm. destruct (next_json_value r) as [res r1]. fr_norm.
+  pose proof (read_input_advances f) as IH.
+  repeat first [ri_op f | ad_case]; ad_done.
+Qed.
+
+Lemma read_input_local n : forall f1 f2 r1 r2 fname ss idx infile,
+  agree n r1 r2 -> (m r1 + 1 <= f1)%nat -> (m r2 + 1 <= f2)%nat ->
+  (consumed (snd (read_input cf p sts nt f1 r1 fname ss idx infile)) <= n)%nat ->
+  det2 n (read_input cf p sts nt f1 r1 fname ss idx infile)
+         (read_input cf p sts nt f2 r2 fname ss idx infile).
+Proof.
+  induction f1 as [|f1 IH]; intros f2 r1 r2 fname ss idx infile A Hf1 Hf2 B; [lia|].
+  destruct f2 as [|f2]; [lia|].
+  pose proof (agree_m _ _ _ A) as Hi1. pose proof (agree_inv2 _ _ _ A) as Hi2.
+  pose proof (read_input_advances_first f1 r1 fname ss idx infile) as Ha.
+  pose proof (consumed_le _ _ _ Ha B) as Hb.
+  pose proof (next_json_value_det n r1 r2 A Hb) as [Hres A'].
+  pose proof (parse_value_strict (parse_fuel r1) r1 Hi1) as S1.
+  pose proof (parse_value_strict (parse_fuel r2) r2 Hi2) as S2.
+  change (parse_value (parse_fuel r1) r1) with (next_json_value r1) in S1.
+  change (parse_value (parse_fuel r2) r2) with (next_json_value r2) in S2.
+  pose proof (agree_where _ _ _ A) as Hw.
+  clear Ha Hb. cbn [read_input] in *. cbv zeta in *. rewrite <- Hw.
+  destruct (next_json_value r1) as [res r1']. destruct (next_json_value r2) as [res2 r2'].
+  cbn [fst snd] in *. subst res2.
+  rewrite <- (agree_io _ _ _ A'), <- (agree_where _ _ _ A').
+  destruct (io r1'); [split; [reflexivity|exact A']|].
+  destruct res as [v| | |].
+  - assert (L1 : (m r1' < m r1)%nat) by (destruct S1 as [H|[H|H]]; [discriminate|discriminate|exact H]).
+    assert (L2 : (m r2' < m r2)%nat) by (destruct S2 as [H|[H|H]]; [discriminate|discriminate|exact H]).
+    destruct (c_only_objs cf && negb (is_container v)).
+    + apply IH; auto; lia.
+    + match goal with |- context [process expr get sts ss ?c] =>
+        destruct (process expr get sts ss c) as [[ss1 o] d] end.
+      destruct d.
+      * specialize (IH f2 r1' r2' fname ss1 (idx + 1) (infile + 1) A').
+        destruct (read_input cf p sts nt f1 r1' fname ss1 (idx + 1) (infile + 1)) as [[[[a1 b1] c1] d1] e1].
+        destruct (read_input cf p sts nt f2 r2' fname ss1 (idx + 1) (infile + 1)) as [[[[a2 b2] c2] d2] e2].
+        cbn [fst snd] in *. destruct IH as [IH1 IH2]; auto; try lia.
+        injection IH1 as <- <- <- <-. split; [reflexivity|exact IH2].
+      * split; [reflexivity|exact A'].
+  - split; [reflexivity|exact A'].
+  - assert (L1 : (m r1' < m r1)%nat) by (destruct S1 as [H|[H|H]]; [discriminate|discriminate|exact H]).
+    assert (L2 : (m r2' < m r2)%nat) by (destruct S2 as [H|[H|H]]; [discriminate|discriminate|exact H]).
+    destruct (c_on_error cf);
+      try (split; [reflexivity|exact A']);
+      (specialize (IH f2 r1' r2' fname ss idx infile A');
+       destruct (read_input cf p sts nt f1 r1' fname ss idx infile) as [[[[a1 b1] c1] d1] e1];
+       destruct (read_input cf p sts nt f2 r2' fname ss idx infile) as [[[[a2 b2] c2] d2] e2];
+       cbn [fst snd] in *; destruct IH as [IH1 IH2]; auto; try lia;
+       injection IH1 as <- <- <- <-; split; [reflexivity|exact IH2]).
+  - split; [reflexivity|exact A'].
+Qed.
+End Local.
+
+Lemma firstn_app_exact {A} (l l' : list A) : firstn (length l) (l ++ l') = l.
+Proof. induction l as [|a l IH]; [reflexivity|]. cbn [length app firstn]. rewrite IH. reflexivity. Qed.
+
+Lemma agree_init_events pre evs1 evs2 :
+  agree (length pre) (mk_reader (map EB pre ++ evs1)) (mk_reader (map EB pre ++ evs2)).
+Proof.
+  unfold agree, mk_reader, inv, consumed. cbn [cur eof rest line col pulled io].
+  repeat split; try discriminate.
+  replace (length pre - (N.to_nat 0 + 0))%nat with (length (map EB pre)) by (rewrite map_length; lia).
+  rewrite !firstn_app_exact. reflexivity.
+Qed.
+
+Lemma agree_init pre rest1 rest2 :
+  agree (length pre) (mk_reader (map EB (pre ++ rest1))) (mk_reader (map EB (pre ++ rest2))).
+Proof. rewrite !map_app. apply agree_init_events. Qed.
+
+Lemma m_mk_reader evs : (m (mk_reader evs) + 1 <= input_fuel evs)%nat.
+Proof. unfold m, mk_reader, input_fuel. cbn [eof rest]. lia. Qed.
+
+(* the run over pre ++ rest1 that looked at no more than the first |pre| events (in particular
+   did not see the end of the input) is the run over pre ++ rest2 *)
+Theorem read_input_independent_of_rest : forall cf p sts nt fname pre rest1 rest2 ss idx infile,
+  let evs1 := map EB (pre ++ rest1) in
+  let evs2 := map EB (pre ++ rest2) in
+  let x1 := read_input cf p sts nt (input_fuel evs1) (mk_reader evs1) fname ss idx infile in
+  let x2 := read_input cf p sts nt (input_fuel evs2) (mk_reader evs2) fname ss idx infile in
+  (consumed (snd x1) <= length pre)%nat ->
+  fst x1 = fst x2 /\ pulled (snd x1) = pulled (snd x2).
+Proof.
+  intros cf p sts nt fname pre rest1 rest2 ss idx infile evs1 evs2 x1 x2 B.
+  destruct (read_input_local cf p sts nt (length pre) (input_fuel evs1) (input_fuel evs2)
+              (mk_reader evs1) (mk_reader evs2) fname ss idx infile) as [H1 H2].
+  - apply agree_init.
+  - apply m_mk_reader.
+  - apply m_mk_reader.
+  - exact B.
+  - split; [exact H1|]. apply (agree_pulled _ _ _ H2).
+Qed.
+
+Theorem go_take_independent_of_rest : forall cf fname pre rest1 rest2 b p sts hdr,
+  build_pipeline cf = Some (p, sts) ->
+  start_output p (titles expr sts []) (c_rowsep cf) = Some hdr ->
+  let evs1 := map EB (pre ++ rest1) in
+  let evs2 := map EB (pre ++ rest2) in
+  (consumed (snd (read_input cf p sts (length (titles expr sts [])) (input_fuel evs1) (mk_reader evs1)
+                    fname (map (init_state expr) sts) 0 0)) <= length pre)%nat ->
+  g_events (go cf [(fname, evs1)] b) = g_events (go cf [(fname, evs2)] b) /\
+  g_result (go cf [(fname, evs1)] b) = g_result (go cf [(fname, evs2)] b) /\
+  g_pulled (go cf [(fname, evs1)] b) = g_pulled (go cf [(fname, evs2)] b).
+Proof.
+  intros cf fname pre rest1 rest2 b p sts hdr Hbp Hst evs1 evs2 B.
+  destruct (read_input_independent_of_rest cf p sts (length (titles expr sts [])) fname pre rest1 rest2
+              (map (init_state expr) sts) 0 0 B) as [H1 H2].
+  fold evs1 evs2 in H1, H2.
+  unfold go. rewrite Hbp. cbv zeta. rewrite Hst. cbn [read_files].
+  destruct (read_input cf p sts (length (titles expr sts [])) (input_fuel evs1) (mk_reader evs1) fname
+              (map (init_state expr) sts) 0 0) as [[[[a1 b1] c1] d1] e1].
+  destruct (read_input cf p sts (length (titles expr sts [])) (input_fuel evs2) (mk_reader evs2) fname
+              (map (init_state expr) sts) 0 0) as [[[[a2 b2] c2] d2] e2].
+  cbn [fst snd] in H1, H2. injection H1 as <- <- <- <-. rewrite H2.
+  destruct d1; cbn [g_events g_result g_pulled]; auto.
+Qed.
+
+(* the hypothesis in the terms of the reader's counters *)
+Lemma consumed_live r k : eof r = false -> (N.to_nat (pulled r) <= k)%nat -> (consumed r <= k)%nat.
+Proof. unfold consumed. intros ->. lia. Qed.
+
+(* ================= (L3) a read error cuts the run short, it does not change it ================= *)
+(* position n of the source is a read error: either it has been met, or it is still ahead *)
+Definition err_at (n : nat) (r : reader) : Prop :=
+  io r = true \/
+  (eof r = false /\ (consumed r <= n)%nat /\ nth_error (rest r) (n - consumed r) = Some EErr).
+
+Lemma err_at_step n r : err_at n r -> err_at n (step r).
+Proof.
+  unfold err_at, step, next, consumed. intros [Hio|(He & Hc & Hn)].
+  - left. destruct (eof r); cbn [snd]; [assumption|]. destruct (rest r) as [|[b|] t]; cbn [snd io]; auto.
+  - rewrite He in *. destruct (rest r) as [|[b|] t]; cbn [snd io eof pulled rest].
+    + destruct (n - (N.to_nat (pulled r) + 0))%nat; discriminate.
+    + right. split; [reflexivity|].
+      destruct (n - (N.to_nat (pulled r) + 0))%nat as [|k] eqn:Ek; [discriminate|].
+      cbn [nth_error] in Hn. split; [lia|].
+      replace (n - (N.to_nat (pulled r + 1) + 0))%nat with k by lia. exact Hn.
+    + left. reflexivity.
+Qed.
+
+Lemma err_at_advances n r r' : advances r r' -> err_at n r -> err_at n r'.
+Proof. apply (advances_inv (err_at n)). apply err_at_step. Qed.
+
+Lemma err_at_init pre rst : err_at (length pre) (mk_reader (map EB pre ++ EErr :: rst)).
+Proof.
+  unfold err_at, mk_reader, consumed. cbn [io eof rest pulled]. right. split; [reflexivity|]. split; [lia|].
+  replace (length pre - (N.to_nat 0 + 0))%nat with (length (map EB pre)) by (rewrite map_length; lia).
+  rewrite nth_error_app2 by lia. rewrite Nat.sub_diag. reflexivity.
+Qed.
+
+Lemma err_at_past n r : err_at n r -> (n < consumed r)%nat -> io r = true.
+Proof. intros [H|(_ & H & _)] Hlt; [exact H|lia]. Qed.
+
+Definition ev_of (x : list sstate * list oev * N * option gres * reader) : list oev :=
+  snd (fst (fst (fst x))).
+Definition err_of (x : list sstate * list oev * N * option gres * reader) : option gres := snd (fst x).
+
+Section Prefix.
+Variables (cf : cfg) (p : printer) (sts : list stage) (nt : nat).
+
+Lemma read_input_prefix n : forall f1 f2 r1 r2 fname ss idx infile,
+  agree n r1 r2 -> err_at n r1 -> (m r1 + 1 <= f1)%nat -> (m r2 + 1 <= f2)%nat ->
+  let x1 := read_input cf p sts nt f1 r1 fname ss idx infile in
+  let x2 := read_input cf p sts nt f2 r2 fname ss idx infile in
+  (exists more, ev_of x2 = ev_of x1 ++ more) /\
+  (err_of x1 = None -> fst x1 = fst x2 /\ pulled (snd x1) = pulled (snd x2)).
+Proof.
+  induction f1 as [|f1 IH]; intros f2 r1 r2 fname ss idx infile A J Hf1 Hf2; [lia|].
+  destruct f2 as [|f2]; [lia|]. cbv zeta.
+  pose proof (agree_m _ _ _ A) as Hi1. pose proof (agree_inv2 _ _ _ A) as Hi2.
+  pose proof (err_at_advances n _ _ (next_json_value_advances r1) J) as J'.
+  pose proof (parse_value_strict (parse_fuel r1) r1 Hi1) as S1.
+  pose proof (parse_value_strict (parse_fuel r2) r2 Hi2) as S2.
+  change (parse_value (parse_fuel r1) r1) with (next_json_value r1) in S1.
+  change (parse_value (parse_fuel r2) r2) with (next_json_value r2) in S2.
+  pose proof (agree_where _ _ _ A) as Hw.
+  destruct (le_lt_dec (consumed (snd (next_json_value r1))) n) as [Hb|Hb].
+  - pose proof (next_json_value_det n r1 r2 A Hb) as [Hres A'].
+    cbn [read_input]. cbv zeta. rewrite <- Hw.
+    destruct (next_json_value r1) as [res r1']. destruct (next_json_value r2) as [res2 r2'].
+    cbn [fst snd] in *. subst res2.
+    rewrite <- (agree_io _ _ _ A'), <- (agree_where _ _ _ A').
+    pose proof (agree_pulled _ _ _ A') as Hp.
+    destruct (io r1'); [unfold ev_of, err_of; cbn [fst snd]; split; [exists []; reflexivity|discriminate]|].
+    destruct res as [v| | |].
+    + assert (L1 : (m r1' < m r1)%nat) by (destruct S1 as [H|[H|H]]; [discriminate|discriminate|exact H]).
+      assert (L2 : (m r2' < m r2)%nat) by (destruct S2 as [H|[H|H]]; [discriminate|discriminate|exact H]).
+      destruct (c_only_objs cf && negb (is_container v)).
+      * apply IH; auto; lia.
+      * match goal with |- context [process expr get sts ss ?c] =>
+          destruct (process expr get sts ss c) as [[ss1 o] d] end.
+        destruct d.
+        -- specialize (IH f2 r1' r2' fname ss1 (idx + 1) (infile + 1) A' J'). cbv zeta in IH.
+           destruct (read_input cf p sts nt f1 r1' fname ss1 (idx + 1) (infile + 1)) as [[[[a1 b1] c1] d1] e1].
+           destruct (read_input cf p sts nt f2 r2' fname ss1 (idx + 1) (infile + 1)) as [[[[a2 b2] c2] d2] e2].
+           unfold ev_of, err_of in *. cbn [fst snd] in *.
+           destruct IH as [[more Hm] IH2]; try lia. split.
+           ++ exists more. rewrite Hm, app_assoc. reflexivity.
+           ++ intros Hd. destruct (IH2 Hd) as [E1 E2]. injection E1 as <- <- <- <-. auto.
+        -- unfold ev_of, err_of. cbn [fst snd]. split; [exists []; rewrite app_nil_r; reflexivity|auto].
+    + unfold ev_of, err_of. cbn [fst snd]. split; [exists []; reflexivity|auto].
+    + assert (L1 : (m r1' < m r1)%nat) by (destruct S1 as [H|[H|H]]; [discriminate|discriminate|exact H]).
+      assert (L2 : (m r2' < m r2)%nat) by (destruct S2 as [H|[H|H]]; [discriminate|discriminate|exact H]).
+      destruct (c_on_error cf);
+        try (unfold ev_of, err_of; cbn [fst snd]; split; [exists []; reflexivity|discriminate]);
+        (specialize (IH f2 r1' r2' fname ss idx infile A' J'); cbv zeta in IH;
+         destruct (read_input cf p sts nt f1 r1' fname ss idx infile) as [[[[a1 b1] c1] d1] e1];
+         destruct (read_input cf p sts nt f2 r2' fname ss idx infile) as [[[[a2 b2] c2] d2] e2];
+         unfold ev_of, err_of in *; cbn [fst snd] in *;
+         destruct IH as [[more Hm] IH2]; try lia; split;
+         [ exists more; rewrite Hm; try rewrite app_assoc; reflexivity
+         | intros Hd; destruct (IH2 Hd) as [E1 E2]; injection E1 as <- <- <- <-; auto ]).
+    + unfold ev_of, err_of. cbn [fst snd]. split; [exists []; reflexivity|discriminate].
+  - (* the value being read runs into the error *)
+    pose proof (err_at_past n _ J' Hb) as Hio.
+    cbn [read_input]. cbv zeta. destruct (next_json_value r1) as [res r1']. cbn [snd] in Hio.
+    rewrite Hio. unfold ev_of, err_of. cbn [fst snd]. split; [eexists; reflexivity|discriminate].
+Qed.
+End Prefix.
+
+Theorem read_error_events_prefix : forall cf p sts nt fname pre rst more ss idx infile,
+  let evs_err := map EB pre ++ EErr :: rst in
+  let evs_ok := map EB (pre ++ more) in
+  exists tl,
+    ev_of (read_input cf p sts nt (input_fuel evs_ok) (mk_reader evs_ok) fname ss idx infile) =
+    ev_of (read_input cf p sts nt (input_fuel evs_err) (mk_reader evs_err) fname ss idx infile) ++ tl.
+Proof.
+  intros cf p sts nt fname pre rst more ss idx infile evs_err evs_ok.
+  unfold evs_ok. rewrite map_app.
+  apply (read_input_prefix cf p sts nt (length pre)).
+  - apply agree_init_events.
+  - apply err_at_init.
+  - apply m_mk_reader.
+  - apply m_mk_reader.
+Qed.
+
+Theorem go_read_error_events_prefix : forall cf fname pre rst more b,
+  let evs_err := map EB pre ++ EErr :: rst in
+  let evs_ok := map EB (pre ++ more) in
+  exists tl, g_events (go cf [(fname, evs_ok)] b) = g_events (go cf [(fname, evs_err)] b) ++ tl.
+Proof.
+  intros cf fname pre rst more b evs_err evs_ok. unfold go.
+  destruct (build_pipeline cf) as [[p sts]|]; [|exists []; reflexivity]. cbv zeta.
+  destruct (start_output p (titles expr sts []) (c_rowsep cf)) as [hdr|]; [|exists []; reflexivity].
+  cbn [read_files].
+  assert (Ag : agree (length pre) (mk_reader evs_err) (mk_reader evs_ok)).
+  { unfold evs_err, evs_ok. rewrite map_app. apply agree_init_events. }
+  pose proof (read_input_prefix cf p sts (length (titles expr sts [])) (length pre)
+                (input_fuel evs_err) (input_fuel evs_ok) (mk_reader evs_err) (mk_reader evs_ok)
+                fname (map (init_state expr) sts) 0 0 Ag (err_at_init pre rst)
+                (m_mk_reader _) (m_mk_reader _)) as H.
+  cbv zeta in H.
+  destruct (read_input cf p sts (length (titles expr sts [])) (input_fuel evs_err) (mk_reader evs_err) fname
+              (map (init_state expr) sts) 0 0) as [[[[a1 b1] c1] d1] e1].
+  destruct (read_input cf p sts (length (titles expr sts [])) (input_fuel evs_ok) (mk_reader evs_ok) fname
+              (map (init_state expr) sts) 0 0) as [[[[a2 b2] c2] d2] e2].
+  unfold ev_of, err_of in H. cbn [fst snd] in H. destruct H as [[tl Htl] H2].
+  destruct d1 as [g1|].
+  - destruct d2 as [g2|]; cbn [g_events]; rewrite Htl.
+    + exists tl. rewrite !app_assoc. reflexivity.
+    + eexists. rewrite <- !app_assoc. reflexivity.
+  - destruct (H2 eq_refl) as [E1 E2]. injection E1 as <- <- <- <-. cbn [g_events]. exists []. symmetry. apply app_nil_r.
+Qed.
+
+(* ================= (L4) error policies at the level of go ================= *)
+Inductive shuffle {A} : list A -> list A -> list A -> Prop :=
+| sh_nil : shuffle [] [] []
+| sh_l a x y z : shuffle x y z -> shuffle (a :: x) y (a :: z)
+| sh_r b x y z : shuffle x y z -> shuffle x (b :: y) (b :: z).
+
+Lemma shuffle_nil_r {A} (x : list A) : shuffle x [] x.
+Proof. induction x; constructor; assumption. Qed.
+
+Lemma shuffle_app_l {A} (q x y z : list A) : shuffle x y z -> shuffle (q ++ x) y (q ++ z).
+Proof. intros H. induction q; cbn [app]; [assumption|constructor; assumption]. Qed.
+
+Lemma shuffle_app_r {A} (q x y z : list A) : shuffle x y z -> shuffle x (q ++ y) (q ++ z).
+Proof. intros H. induction q; cbn [app]; [assumption|constructor; assumption]. Qed.
+
+Lemma shuffle_filter {A} (f : A -> bool) x y z : shuffle x y z ->
+  Forall (fun a => f a = true) x -> Forall (fun a => f a = false) y ->
+  filter f z = x /\ filter (fun a => negb (f a)) z = y.
+Proof.
+  induction 1 as [|a x y z H IH|b x y z H IH]; intros Hx Hy.
+  - auto.
+  - inversion Hx as [|? ? Ha Hx']; subst. destruct (IH Hx' Hy) as [E1 E2].
+    cbn [filter]. rewrite Ha. cbn [negb]. rewrite E1, E2. auto.
+  - inversion Hy as [|? ? Hb Hy']; subst. destruct (IH Hx Hy') as [E1 E2].
+    cbn [filter]. rewrite Hb. cbn [negb]. rewrite E1, E2. auto.
+Qed.
+
+Definition err_events (pol : on_error) : list oev :=
+  match pol with OnStdout => [OOut error_line] | OnStderr => [OErr error_line] | _ => [] end.
+Definition errs (pol : on_error) (k : nat) : list oev := concat (repeat (err_events pol) k).
+
+Section Policy.
+Variables (cf : cfg) (p : printer) (sts : list stage) (nt : nat).
+Hypothesis not_panic : c_on_error cf <> OnPanic.
+Hypothesis never_break : forall ss c, snd (process expr get sts ss c) = Continue.
+
+Lemma read_input_policy : forall fuel r fname ss idx infile,
+  no_eerr r -> io r = false ->
+  snd (read_ctxs fuel (c_only_objs cf) r fname idx infile) = false ->
+  exists ss' o idx' r',
+    read_input cf p sts nt fuel r fname ss idx infile = (ss', o, idx', None, r') /\
+    shuffle (emit cf p nt (run expr get sts ss (fst (fst (read_ctxs fuel (c_only_objs cf) r fname idx infile)))))
+            (errs (c_on_error cf) (N.to_nat (snd (fst (read_ctxs fuel (c_only_objs cf) r fname idx infile)))))
+            (o ++ emit cf p nt (complete expr get sts ss')).
+Proof.
+  induction fuel as [|f IH]; intros r fname ss idx infile Hn Hio Hb.
+  - cbn in Hb. discriminate.
+  - cbn [read_input read_ctxs] in *. cbv zeta in *.
+    destruct (next_json_value r) as [res r1] eqn:E.
+    destruct (next_json_value_clean r res r1 Hn Hio E) as [Hn1 Hio1].
+    rewrite Hio1 in *.
+    destruct res as [v| | |].
+    + destruct (c_only_objs cf && negb (is_container v)).
+      * apply IH; assumption.
+      * set (c := new_with_input v _) in *.
+        destruct (read_ctxs f (c_only_objs cf) r1 fname (idx + 1) (infile + 1)) as [[cs e] b] eqn:Ec.
+        cbn [fst snd] in *. cbn [run].
+        pose proof (never_break ss c) as Hd.
+        destruct (process expr get sts ss c) as [[ss1 o] d]. cbn [snd] in Hd. subst d.
+        destruct (IH r1 fname ss1 (idx + 1) (infile + 1) Hn1 Hio1) as (ss2 & o2 & idx2 & r2 & E2 & Hev).
+        { rewrite Ec. exact Hb. }
+        rewrite E2. rewrite Ec in Hev. cbn [fst snd] in Hev.
+        exists ss2, (emit cf p nt o ++ o2), idx2, r2. split; [reflexivity|].
+        rewrite <- app_assoc, emit_app. apply shuffle_app_l. exact Hev.
+    + exists ss, [], idx, r1. split; [reflexivity|]. cbn [fst snd run app]. apply shuffle_nil_r.
+    + destruct (read_ctxs f (c_only_objs cf) r1 fname idx infile) as [[cs e] b] eqn:Ec.
+      cbn [fst snd] in *.
+      destruct (IH r1 fname ss idx infile Hn1 Hio1) as (ss2 & o2 & idx2 & r2 & E2 & Hev).
+      { rewrite Ec. exact Hb. }
+      rewrite Ec in Hev. cbn [fst snd] in Hev.
+      replace (N.to_nat (e + 1)) with (S (N.to_nat e)) by lia.
+      unfold errs. cbn [repeat concat]. fold (errs (c_on_error cf) (N.to_nat e)).
+      destruct (c_on_error cf) eqn:Epol; [| congruence | |]; rewrite E2;
+        eexists ss2, _, idx2, r2; (split; [reflexivity|]);
+        rewrite <- app_assoc; apply shuffle_app_r; exact Hev.
+    + cbn in Hb. discriminate.
+Qed.
+End Policy.
+
+Definition is_out (e : oev) : bool := match e with OOut _ => true | OErr _ => false end.
+
+Definition hdr_events (hdr : list byte) : list oev := match hdr with [] => [] | _ => [OOut hdr] end.
+
+(* every policy but panic: the events are the header, then an interleaving of the rows of Chain.run
+   with one error event per recoverable error *)
+Theorem go_run_policy : forall (cf : cfg) (fname : option str) (evs : list ev) (b : bool) p sts hdr,
+  c_on_error cf <> OnPanic ->
+  Forall (fun e => e <> EErr) evs ->
+  build_pipeline cf = Some (p, sts) ->
+  start_output p (titles expr sts []) (c_rowsep cf) = Some hdr ->
+  (forall ss c, snd (process expr get sts ss c) = Continue) ->
+  let cs := fst (fst (ctxs_of_input cf fname evs)) in
+  let nerr := N.to_nat (snd (fst (ctxs_of_input cf fname evs))) in
+  g_result (go cf [(fname, evs)] b) = GOk /\
+  exists z, g_events (go cf [(fname, evs)] b) = hdr_events hdr ++ z /\
+    shuffle (emit cf p (length (titles expr sts [])) (Chain.run expr get sts (map (init_state expr) sts) cs))
+            (errs (c_on_error cf) nerr) z.
+Proof.
+  intros cf fname evs b p sts hdr Hpol Hevs Hbp Hst Hnb cs nerr. subst cs nerr.
+  pose proof (ctxs_of_input_no_stop cf fname evs Hevs) as Hstop.
+  unfold go. rewrite Hbp. cbv zeta. rewrite Hst. cbn [read_files].
+  unfold ctxs_of_input in *.
+  destruct (read_input_policy cf p sts (length (titles expr sts [])) Hpol Hnb (input_fuel evs) (mk_reader evs)
+              fname (map (init_state expr) sts) 0 0 (no_eerr_mk evs Hevs) eq_refl Hstop)
+    as (ss' & o & idx' & r' & E & Hev).
+  rewrite E. cbn [g_result g_events]. split; [reflexivity|].
+  eexists. split; [unfold hdr_events; rewrite app_nil_r; reflexivity|]. exact Hev.
+Qed.
+
+Lemma emit_all_out cf p nt cs : Forall (fun a => is_out a = true) (emit cf p nt cs).
+Proof. unfold emit. induction cs; constructor; auto. Qed.
+
+Lemma repeat_forall {A} (P : A -> Prop) a k : P a -> Forall P (repeat a k).
+Proof. intros H. induction k; constructor; auto. Qed.
+
+Lemma errs_single pol e k : err_events pol = [e] -> errs pol k = repeat e k.
+Proof. intros H. unfold errs. rewrite H. induction k; cbn; congruence. Qed.
+
+(* --on-error=stderr: stdout carries exactly the rows of Chain.run, stderr one line per error *)
+Theorem go_run_stderr : forall (cf : cfg) (fname : option str) (evs : list ev) (b : bool) p sts hdr,
+  c_on_error cf = OnStderr ->
+  Forall (fun e => e <> EErr) evs ->
+  build_pipeline cf = Some (p, sts) ->
+  start_output p (titles expr sts []) (c_rowsep cf) = Some hdr ->
+  (forall ss c, snd (process expr get sts ss c) = Continue) ->
+  let g := go cf [(fname, evs)] b in
+  g_result g = GOk /\
+  filter is_out (g_events g) =
+    hdr_events hdr ++ emit cf p (length (titles expr sts []))
+      (Chain.run expr get sts (map (init_state expr) sts) (fst (fst (ctxs_of_input cf fname evs)))) /\
+  filter (fun e => negb (is_out e)) (g_events g) =
+    repeat (OErr error_line) (N.to_nat (snd (fst (ctxs_of_input cf fname evs)))).
+Proof.
+  intros cf fname evs b p sts hdr Hpol Hevs Hbp Hst Hnb g. subst g.
+  destruct (go_run_policy cf fname evs b p sts hdr) as (H1 & z & Hz & Hsh); auto; [congruence|].
+  cbv zeta in Hsh. rewrite Hpol in Hsh. rewrite (errs_single OnStderr (OErr error_line)) in Hsh by reflexivity.
+  destruct (shuffle_filter is_out _ _ _ Hsh) as [F1 F2].
+  { apply emit_all_out. } { apply repeat_forall. reflexivity. }
+  split; [exact H1|]. rewrite Hz, !filter_app, F1, F2.
+  assert (Hh1 : filter is_out (hdr_events hdr) = hdr_events hdr) by (destruct hdr; reflexivity).
+  assert (Hh2 : filter (fun e => negb (is_out e)) (hdr_events hdr) = []) by (destruct hdr; reflexivity).
+  rewrite Hh1, Hh2. auto.
+Qed.
+
+(* --on-error=stdout: the error lines are interleaved with the rows *)
+Theorem go_run_stdout : forall (cf : cfg) (fname : option str) (evs : list ev) (b : bool) p sts hdr,
+  c_on_error cf = OnStdout ->
+  Forall (fun e => e <> EErr) evs ->
+  build_pipeline cf = Some (p, sts) ->
+  start_output p (titles expr sts []) (c_rowsep cf) = Some hdr ->
+  (forall ss c, snd (process expr get sts ss c) = Continue) ->
+  let g := go cf [(fname, evs)] b in
+  g_result g = GOk /\
+  exists z, g_events g = hdr_events hdr ++ z /\
+    shuffle (emit cf p (length (titles expr sts []))
+               (Chain.run expr get sts (map (init_state expr) sts) (fst (fst (ctxs_of_input cf fname evs)))))
+            (repeat (OOut error_line) (N.to_nat (snd (fst (ctxs_of_input cf fname evs))))) z.
+Proof.
+  intros cf fname evs b p sts hdr Hpol Hevs Hbp Hst Hnb g. subst g.
+  destruct (go_run_policy cf fname evs b p sts hdr) as (H1 & z & Hz & Hsh); auto; [congruence|].
+  cbv zeta in Hsh. rewrite Hpol in Hsh. rewrite (errs_single OnStdout (OOut error_line)) in Hsh by reflexivity.
+  split; [exact H1|]. exists z. auto.
+Qed.
+
+(* --on-error=panic: the run stops at the first recoverable error *)
+(* the contexts that precede the first recoverable error; the flag says that one was met *)
+Fixpoint read_ctxs_pre (fuel : nat) (only_objs : bool) (r : reader) (fname : option str) (idx infile : N)
+  : list ctx * bool :=
+  match fuel with O => ([], false) | S f =>
+    let started := where_am_i r in
+    let '(res, r) := next_json_value r in
+    if io r then ([], false) else
+    match res with
+    | POk v =>
+        if only_objs && negb (is_container v) then read_ctxs_pre f only_objs r fname idx infile else
+        let c := new_with_input v {| ic_start := started; ic_end := where_am_i r; ic_file := fname;
+                                     ic_file_index := infile; ic_index := idx |} in
+        let '(cs, b) := read_ctxs_pre f only_objs r fname (idx + 1) (infile + 1) in (c :: cs, b)
+    | PErr => ([], true)
+    | _ => ([], false)
+    end
+  end.
+
+Lemma read_ctxs_pre_hit : forall fuel oo r fname idx infile,
+  0 < snd (fst (read_ctxs fuel oo r fname idx infile)) ->
+  snd (read_ctxs_pre fuel oo r fname idx infile) = true.
+Proof.
+  induction fuel as [|f IH]; intros oo r fname idx infile; cbn [read_ctxs read_ctxs_pre]; cbv zeta.
+  - cbn. lia.
+  - destruct (next_json_value r) as [res r1]. destruct (io r1); [cbn; lia|].
+    destruct res as [v| | |]; try (cbn; lia); try reflexivity.
+    destruct (oo && negb (is_container v)); [apply IH|].
+    specialize (IH oo r1 fname (idx + 1) (infile + 1)).
+    destruct (read_ctxs f oo r1 fname (idx + 1) (infile + 1)) as [[cs e] b].
+    destruct (read_ctxs_pre f oo r1 fname (idx + 1) (infile + 1)) as [cs' b']. cbn [fst snd] in *. exact IH.
+Qed.
+
+(* the pre-error contexts are an initial segment of the contexts of the pipeline-free loop *)
+Lemma read_ctxs_pre_prefix : forall fuel oo r fname idx infile,
+  exists tl, fst (fst (read_ctxs fuel oo r fname idx infile)) =
+             fst (read_ctxs_pre fuel oo r fname idx infile) ++ tl.
+Proof.
+  induction fuel as [|f IH]; intros oo r fname idx infile; cbn [read_ctxs read_ctxs_pre]; cbv zeta.
+  - exists []. reflexivity.
+  - destruct (next_json_value r) as [res r1]. destruct (io r1); [exists []; reflexivity|].
+    destruct res as [v| | |]; try (exists []; reflexivity).
+    + destruct (oo && negb (is_container v)); [apply IH|].
+      destruct (IH oo r1 fname (idx + 1) (infile + 1)) as [tl Htl].
+      destruct (read_ctxs f oo r1 fname (idx + 1) (infile + 1)) as [[cs e] b].
+      destruct (read_ctxs_pre f oo r1 fname (idx + 1) (infile + 1)) as [cs' b']. cbn [fst snd] in *.
+      exists tl. rewrite Htl. reflexivity.
+    + destruct (read_ctxs f oo r1 fname idx infile) as [[cs e] b]. cbn [fst]. exists cs. reflexivity.
+Qed.
+
+Section Panic.
+Variables (cf : cfg) (p : printer) (sts : list stage) (nt : nat).
+Hypothesis panic : c_on_error cf = OnPanic.
+Hypothesis never_break : forall ss c, snd (process expr get sts ss c) = Continue.
+
+Lemma read_input_panic : forall fuel r fname ss idx infile,
+  snd (read_ctxs_pre fuel (c_only_objs cf) r fname idx infile) = true ->
+  exists ss' idx' r',
+    read_input cf p sts nt fuel r fname ss idx infile =
+      (ss', emit cf p nt (snd (feed_all expr get sts ss (fst (read_ctxs_pre fuel (c_only_objs cf) r fname idx infile)))),
+       idx', Some GErrJson, r').
+Proof.
+  induction fuel as [|f IH]; intros r fname ss idx infile Hb.
+  - cbn in Hb. discriminate.
+  - cbn [read_input read_ctxs_pre] in *. cbv zeta in *.
+    destruct (next_json_value r) as [res r1].
+    destruct (io r1); [cbn in Hb; discriminate|].
+    destruct res as [v| | |]; try (cbn in Hb; discriminate).
+    + destruct (c_only_objs cf && negb (is_container v)); [apply IH; assumption|].
+      set (c := new_with_input v _) in *.
+      destruct (read_ctxs_pre f (c_only_objs cf) r1 fname (idx + 1) (infile + 1)) as [cs b] eqn:Ec.
+      cbn [fst snd] in *. cbn [feed_all].
+      pose proof (never_break ss c) as Hd.
+      destruct (process expr get sts ss c) as [[ss1 o] d]. cbn [snd] in Hd. subst d.
+      destruct (IH r1 fname ss1 (idx + 1) (infile + 1)) as (ss2 & idx2 & r2 & E2).
+      { rewrite Ec. exact Hb. }
+      rewrite E2. rewrite Ec. cbn [fst].
+      destruct (feed_all expr get sts ss1 cs) as [ss3 o3]. cbn [snd].
+      exists ss2, idx2, r2. rewrite emit_app. reflexivity.
+    + rewrite panic. cbn [fst feed_all snd]. exists ss, idx, r1. reflexivity.
+Qed.
+End Panic.
+
+Theorem go_run_panic : forall (cf : cfg) (fname : option str) (evs : list ev) (b : bool) p sts hdr,
+  c_on_error cf = OnPanic ->
+  build_pipeline cf = Some (p, sts) ->
+  start_output p (titles expr sts []) (c_rowsep cf) = Some hdr ->
+  (forall ss c, snd (process expr get sts ss c) = Continue) ->
+  0 < snd (fst (ctxs_of_input cf fname evs)) ->
+  let pre := fst (read_ctxs_pre (input_fuel evs) (c_only_objs cf) (mk_reader evs) fname 0 0) in
+  g_result (go cf [(fname, evs)] b) = GErrJson /\
+  g_events (go cf [(fname, evs)] b) =
+    hdr_events hdr ++ emit cf p (length (titles expr sts []))
+                        (snd (feed_all expr get sts (map (init_state expr) sts) pre)) /\
+  exists tl, fst (fst (ctxs_of_input cf fname evs)) = pre ++ tl.
+Proof.
+  intros cf fname evs b p sts hdr Hpol Hbp Hst Hnb Herr pre. subst pre.
+  unfold ctxs_of_input in *.
+  pose proof (read_ctxs_pre_hit _ _ _ _ _ _ Herr) as Hhit.
+  destruct (read_input_panic cf p sts (length (titles expr sts [])) Hpol Hnb (input_fuel evs) (mk_reader evs)
+              fname (map (init_state expr) sts) 0 0 Hhit) as (ss' & idx' & r' & E).
+  unfold go. rewrite Hbp. cbv zeta. rewrite Hst. cbn [read_files]. rewrite E.
+  cbn [g_result g_events]. split; [reflexivity|]. split; [reflexivity|].
+  apply read_ctxs_pre_prefix.
+Qed.
+
+(* `pulled <= length pre` alone is not enough: the run on "1" (take 1) pulls one byte, sees the end of
+   the input and prints 1; on "12" it prints 12.  The hypothesis must say that the end of the input
+   was not seen (consumed = pulled + 1 at the end of input). *)
+Definition take1_cfg : cfg :=
+  {| c_on_error := OnIgnore; c_select := []; c_filter := None; c_split := None; c_group := None;
+     c_sort := []; c_skip := 0; c_take := Some 1; c_unique := false; c_set := [];
+     c_only_objs := false; c_style := StyleJson; c_rowsep := [10];
+     c_json_opts := None; c_text_opts := None |}.
+Example pulled_bound_not_enough :
+  g_pulled (go take1_cfg [(None, map EB ([49] ++ []))] true) = [1] /\
+  g_events (go take1_cfg [(None, map EB ([49] ++ []))] true) = [OOut [49; 10]] /\
+  g_events (go take1_cfg [(None, map EB ([49] ++ [50]))] true) = [OOut [49; 50; 10]].
+Proof. vm_compute. auto. Qed.
+
+Print Assumptions next_json_value_det.
+Print Assumptions read_input_independent_of_rest.
+Print Assumptions go_take_independent_of_rest.
+Print Assumptions read_error_events_prefix.
+Print Assumptions go_read_error_events_prefix.
+Print Assumptions go_run_policy.
+Print Assumptions go_run_stderr.
+Print Assumptions go_run_stdout.
+Print Assumptions go_run_panic.
